@@ -34,7 +34,8 @@ impl Tokens {
         self.kinds
             .iter()
             .copied()
-            .zip_eq(self.starts.iter().copied())
+            // there is one more start than there are kinds (the end of the last token)
+            .zip(self.starts.iter().copied())
             .zip_eq(self.starts.iter().copied().skip(1))
             .map(|((kind, start), end)| (kind, TextRange::new(start, end)))
     }
